@@ -1120,6 +1120,11 @@ func ruleMACCoversTimestamp(c *Ctx, rule string) {
 							if b2 == base && lo2 == lo && hi == lo2+wd {
 								okWhy = fmt.Sprintf("MAC input [%d:%d] is exactly the range %s decodes the timestamp from", lo, hi, c2.name)
 							}
+							// the very same slice value is decoded and MACed (whatever its extent:
+							// the MAC covers all of it, the decoder reads its first bytes)
+							if okWhy == "" && (c2.args[1] == wr || w.sameKey(c2.args[1], wr)) {
+								okWhy = fmt.Sprintf("the MAC input is the slice %s decodes the timestamp from", c2.name)
+							}
 						}
 					}
 					// (ii) low-order bytes of an encoded integer
